@@ -16,6 +16,7 @@ FILES = ['msdm/algorithms/lrtdp.py']
 FUNCTIONS = ['msdm.algorithms.lrtdp.LRTDP.' + f for f in ('__init__', 'plan_on', '_set_up_plan_on', '_tear_down_plan_on', 'lrtdp', 'lrtdp_trial', '_check_solved',
                                                           '_bellman_update', 'Q', 'policy')] + ['msdm.core.utils.dictutils.defaultdict2.__getitem__']
 ASSUMPTIONS = [
+    'tier U (LRTDP.Q): next-state distribution of any support size (index-addressed uninterpreted sequence), uninterpreted absorbing predicate / reward / value table, symbolic discount in (0,1]; recursive ghost sum',
     'tier B: proper (goal-reaching) MDP skeletons: acyclic ones explored exhaustively, a cyclic one up to a generator draw budget; rewards, heuristic slack, '
     'heuristic values at absorbing states and the error margin are symbolic; transition probabilities and the discount generic rationals',
     'demonic generator: every sampled trial history (all seeds) and every action shuffle',
@@ -277,7 +278,7 @@ MANIFEST_ENTRY = dict(
           'symbolic rewards, symbolic admissible heuristics (arbitrary values at absorbing states) and a symbolic error margin; z3 proves on every path: '
           'convergence flag and labels, upper bound, initial margin <= eps*E[steps], policy return within the same margin (exact return computed '
           'symbolically), absorbing states at 0, Q-table, initial value, frame. Unit contracts for Q, _bellman_update, policy; run-time tier on cyclic MDPs.'),
-    note='Bounded: acyclic skeletons (<=4 states) for the symbolic tier, cyclic MDPs only in the run-time tier; termination in general not proved.',
+    note='Bounded: acyclic skeletons (<=4 states) for the symbolic tier, cyclic MDPs only in the run-time tier; termination in general not proved. Tier U: LRTDP.Q over an abstract next-state distribution (any support size).',
 )
 END_MANIFEST_ENTRY = True
 
